@@ -278,20 +278,20 @@ static void child_run(void *ud) {
     step++;
     cov->steps++;
     if (!strcmp(w0, "init")) {
-      if (sscanf(line, "init %ld %ld %ld", &x[0], &x[1], &x[2]) != 3 || x[0] < 0 || x[0] >= MAXOBJ || objs[x[0]].used || x[1] < 0 || x[2] < 0) { sim_shared->aux[1] = 1; return; }
+      if (sscanf(line, "init %ld %ld %ld", &x[0], &x[1], &x[2]) != 3 || x[0] < 0 || x[0] >= MAXOBJ || objs[x[0]].used || x[1] < 0 || x[2] < 0) { sim_shared->aux[1] = 1; snprintf(sim_shared->note, sizeof sim_shared->note, "invalid line at step %d: %.100s", step, line); return; }
       size_t live0 = heap_live_count();
       size_t bytes = (size_t)x[1] * (size_t)((((x[2] + 63) / 64) + 1) & ~1L) * 8;
       do_init((int)x[0], (int)x[1], (int)x[2], step);
       if (Lb->mmc && bytes && heap_live_count() == live0) cov->probes[P_CACHE_HIT]++;
       if (bytes == (size_t)m4sim_l3) cov->probes[P_EQ_THRESHOLD]++;
     } else if (!strcmp(w0, "window")) {
-      if (sscanf(line, "window %ld %ld %ld %ld %ld %ld", &x[0], &x[1], &x[2], &x[3], &x[4], &x[5]) != 6) { sim_shared->aux[1] = 1; return; }
-      if (x[0] < 0 || x[0] >= MAXOBJ || objs[x[0]].used || x[1] < 0 || x[1] >= MAXOBJ || !objs[x[1]].used) { sim_shared->aux[1] = 1; return; }
+      if (sscanf(line, "window %ld %ld %ld %ld %ld %ld", &x[0], &x[1], &x[2], &x[3], &x[4], &x[5]) != 6) { sim_shared->aux[1] = 1; snprintf(sim_shared->note, sizeof sim_shared->note, "invalid line at step %d: %.100s", step, line); return; }
+      if (x[0] < 0 || x[0] >= MAXOBJ || objs[x[0]].used || x[1] < 0 || x[1] >= MAXOBJ || !objs[x[1]].used) { sim_shared->aux[1] = 1; snprintf(sim_shared->note, sizeof sim_shared->note, "invalid line at step %d: %.100s", step, line); return; }
       obj_t *pp = &objs[x[1]];
-      if (x[2] < 0 || x[4] < x[2] || x[4] > pp->r || x[3] < 0 || x[3] * 64 > pp->c || x[5] < x[3] * 64 || x[5] > pp->c) { sim_shared->aux[1] = 1; return; }
+      if (x[2] < 0 || x[4] < x[2] || x[4] > pp->r || x[3] < 0 || x[3] * 64 > pp->c || x[5] < x[3] * 64 || x[5] > pp->c) { sim_shared->aux[1] = 1; snprintf(sim_shared->note, sizeof sim_shared->note, "invalid line at step %d: %.100s", step, line); return; }
       do_window((int)x[0], (int)x[1], (int)x[2], (int)x[3], (int)x[4], (int)x[5], step);
     } else if (!strcmp(w0, "free")) {
-      if (sscanf(line, "free %ld", &x[0]) != 1 || x[0] < 0 || x[0] >= MAXOBJ || !objs[x[0]].used || objs[x[0]].nwin) { sim_shared->aux[1] = 1; return; }
+      if (sscanf(line, "free %ld", &x[0]) != 1 || x[0] < 0 || x[0] >= MAXOBJ || !objs[x[0]].used || objs[x[0]].nwin) { sim_shared->aux[1] = 1; snprintf(sim_shared->note, sizeof sim_shared->note, "invalid line at step %d: %.100s", step, line); return; }
       size_t live0 = heap_live_count();
       int owner_big = !objs[x[0]].is_window && objs[x[0]].r && objs[x[0]].c;
       size_t bytes = owner_big ? owner_words(&objs[x[0]]) * 8 : 0;
@@ -303,19 +303,19 @@ static void child_run(void *ud) {
         if (bytes < (size_t)m4sim_l3 && slots == 16) cov->probes[P_EVICT_17TH]++;
       }
     } else if (!strcmp(w0, "fill")) {
-      if (sscanf(line, "fill %ld %llu", &x[0], &s) != 2 || x[0] < 0 || x[0] >= MAXOBJ || !objs[x[0]].used) { sim_shared->aux[1] = 1; return; }
+      if (sscanf(line, "fill %ld %llu", &x[0], &s) != 2 || x[0] < 0 || x[0] >= MAXOBJ || !objs[x[0]].used) { sim_shared->aux[1] = 1; snprintf(sim_shared->note, sizeof sim_shared->note, "invalid line at step %d: %.100s", step, line); return; }
       do_fill((int)x[0], s);
     } else if (!strcmp(w0, "touch")) {
-      if (sscanf(line, "touch %ld %ld %llu", &x[0], &x[1], &s) != 3 || x[1] < 1 || x[1] > 400) { sim_shared->aux[1] = 1; return; }
+      if (sscanf(line, "touch %ld %ld %llu", &x[0], &x[1], &s) != 3 || x[1] < 1 || x[1] > 400) { sim_shared->aux[1] = 1; snprintf(sim_shared->note, sizeof sim_shared->note, "invalid line at step %d: %.100s", step, line); return; }
       do_touch((int)x[0], (int)x[1], s);
       ledger_check(step);
     } else if (!strcmp(w0, "reinit")) {
-      if (live_headers) { sim_shared->aux[1] = 1; return; }
+      if (live_headers) { sim_shared->aux[1] = 1; snprintf(sim_shared->note, sizeof sim_shared->note, "invalid line at step %d: %.100s", step, line); return; }
       cov->probes[P_REINIT]++;
       drain(step, 1);
     } else if (!strcmp(w0, "drain")) {
       drain(step, 0);
-    } else { sim_shared->aux[1] = 1; return; }
+    } else { sim_shared->aux[1] = 1; snprintf(sim_shared->note, sizeof sim_shared->note, "invalid line at step %d: %.100s", step, line); return; }
     if (!viol) { if ((step & 63) == 0) check_all(step, 1); else check_some(&chk, step); }
     note_state();
     simlog_u64((uint64_t)heap_live_count() * 131 + (uint64_t)live_headers);
@@ -382,7 +382,7 @@ static void gen_program(uint64_t rseed, uint64_t idx, const char *tier, sbuf_t *
   int pool_r[6], pool_c[6];
   for (int i = 0; i < 6; i++) { pool_r[i] = 1 + (int)rng_below(&r, 60); pool_c[i] = 1 + (int)rng_below(&r, 400); }
   for (int ph = 0; ph < nph; ph++) {
-    int kind = (int)rng_below(&r, 8);
+    int kind = (int)rng_below(&r, 9);
     int n = 10 + (int)rng_below(&r, thorough ? 200 : 90);
     switch (kind) {
     case 0: /* churn over a small pool of sizes: exact-size cache hits */
@@ -428,6 +428,44 @@ static void gen_program(uint64_t rseed, uint64_t idx, const char *tier, sbuf_t *
         if (rng_chance(&r, 1, 2)) g_init(&r, o, 1 + (int)rng_below(&r, 60), 1 + (int)rng_below(&r, 300)); else g_free(&r, o);
       }
       break;
+    case 7: { /* header blocks are filled in creation order: empty one whole block (first heap block, a middle one, the last), while it is or is not the block new headers come from */
+      g_drain(o);
+      int j = 2 + (int)rng_below(&r, 4);          /* number of 64-header blocks to fill */
+      int total = 64 * j - (int)rng_below(&r, 2) * (int)rng_below(&r, 5); /* exactly full, or a few short */
+      int order[400], no = 0;
+      int base = g_pick_free_slot(&r);
+      gm[base] = (gobj_t){ 1, 0, 0, 8, 130, -1 }; g_live++;
+      sb_printf(o, "init %d 8 130\n", base);
+      order[no++] = base;
+      while (no < total && no < 400) {
+        int k = g_pick_free_slot(&r);
+        int wr0 = (int)rng_below(&r, 4), wr1 = 4 + (int)rng_below(&r, 4);
+        gm[k] = (gobj_t){ 1, 1, 0, wr1 - wr0, 64, base }; gm[base].nwin++; g_live++;
+        sb_printf(o, "window %d %d %d 0 %d 64\n", k, base, wr0, wr1);
+        order[no++] = k;
+      }
+      int b = 1 + (int)rng_below(&r, (uint64_t)(j - 1)); /* which block to empty: 1..j-1 (0 is the static one, holds the base matrix) */
+      int lo = 64 * b, hi = lo + 64 > no ? no : lo + 64;
+      if (rng_chance(&r, 2, 3) && hi > lo) { /* make that block the one new headers come from: free one of its slots, allocate again */
+        int v = lo + (int)rng_below(&r, (uint64_t)(hi - lo));
+        sb_printf(o, "free %d\n", order[v]); gm[order[v]].used = 0; gm[base].nwin--; g_live--;
+        int k = g_pick_free_slot(&r);
+        gm[k] = (gobj_t){ 1, 1, 0, 4, 64, base }; gm[base].nwin++; g_live++;
+        sb_printf(o, "window %d %d 0 0 4 64\n", k, base);
+        order[v] = k;
+      }
+      /* free the whole block in a seeded order */
+      int idx[64], ni = 0;
+      for (int q = lo; q < hi; q++) idx[ni++] = q;
+      for (int q = ni - 1; q > 0; q--) { int z = (int)rng_below(&r, (uint64_t)q + 1); int t = idx[q]; idx[q] = idx[z]; idx[z] = t; }
+      int keep = rng_chance(&r, 1, 4) ? 1 : 0; /* sometimes leave one header: the block must then stay */
+      for (int q = 0; q < ni - keep; q++) { sb_printf(o, "free %d\n", order[idx[q]]); gm[order[idx[q]]].used = 0; gm[base].nwin--; g_live--; }
+      /* and carry on allocating */
+      int more = 1 + (int)rng_below(&r, 70);
+      for (int q = 0; q < more; q++) g_window(&r, o);
+      for (int q = 0; q < 20; q++) { if (rng_chance(&r, 1, 2)) g_window(&r, o); else g_free(&r, o); }
+      break;
+    }
     default: /* everything freed, library finalised and initialised again */
       g_drain(o);
       sb_printf(o, "reinit\n");
@@ -467,6 +505,7 @@ static int cmd_worker(int argc, char **argv) {
       eng_first_line_matching(errpath, "rror", buf, sizeof buf);
       printf("V idx=%llu prop=C14 class=%s scen=history step=%ld file=%s detail=%s %s\n", (unsigned long long)idx, cls, (long)sim_shared->aux[4], fn, sim_shared->note, buf);
     }
+    if (!strcmp(cls, "SKIPPED")) printf("K idx=%llu %s\n", (unsigned long long)idx, sim_shared->note);
     printf("R idx=%llu class=%s steps=%ld hash=%016llx\n", (unsigned long long)idx, cls, (long)sim_shared->aux[2], (unsigned long long)sim_shared->result_hash);
     fflush(stdout);
   }
